@@ -22,6 +22,25 @@ def Native.WF : Native → Bool
 /-- the opaque conversion table answers every question (no harness error) -/
 def EnvTotal (E : Env) : Prop := ∀ dec x, E.conv dec x ≠ none
 
+/-- text of a float / Decimal value: `'%f' % x`, or `str(x)` when the format raises -/
+def tokText (t : Tok) : Str := match t.fmt with | some s => s | none => t.str
+
+/-- the opaque conversion `float()` (`dec = false`) / `Decimal()` (`dec = true`) is text-stable
+    (checked on the recorded table of every case): the empty text does not convert, and converting
+    the text of a value it produced either fails or gives a value with the same text -/
+def OpaqueStable (E : Env) (dec : Bool) : Prop :=
+  E.conv dec (.str []) = some none ∧
+  ∀ x t, E.conv dec x = some (some t) →
+    E.conv dec (.str (strip E.T (tokText t))) = some none ∨
+    ∃ t', E.conv dec (.str (strip E.T (tokText t))) = some (some t') ∧ tokText t' = tokText t
+
+/-- text-stability of the conversions a kind uses -/
+def OpaqueOK (E : Env) : Kind → Prop
+  | .float _ => OpaqueStable E false
+  | .decimal _ => OpaqueStable E true
+  | .constrained c _ => OpaqueOK E c
+  | _ => True
+
 /-- no `int` that the code would print exceeds CPython's digit limit (KF-C04-a outside) -/
 def NoHuge (T : Tables) : Native → Bool
   | .int i => intFits T i
